@@ -1,0 +1,17 @@
+//go:build verif
+
+// Contracts for the deductive checker in /verif (comment-only; compiled only with -tags verif).
+// Ghost model of the commit graph and of CommitsQueue (anc, parentOf, qseen, qqueued): /verif/spec/refstore.spec.
+package ref
+
+// "commit1 is an ancestor of commit2" is answered true exactly when commit1 is reachable from commit2 through parent links,
+// whatever order the queue pops commits in (timestamps do not enter the contract of the queue).
+//@ func IsAncestorOf
+//@   props C11
+//@   requires db != nil && len(commit1) == 16 && len(commit2) == 16
+//@   modifies qseen, qqueued
+//@   loop 1 invariant q != nil && member2(qseen, q, sid(commit2)) && forall(x, member2(qqueued, q, x) ==> member2(qseen, q, x))
+//@   loop 1 invariant forall(x, member2(qseen, q, x) ==> anc(x, sid(commit2)))
+//@   loop 1 invariant forall2(x, i, member2(qseen, q, x) && !member2(qqueued, q, x) && 0 <= i && i < nparents(x) ==> member2(qseen, q, parentOf(x, i)))
+//@   loop 1 invariant forall(x, member2(qseen, q, x) && !member2(qqueued, q, x) ==> x != sid(commit1))
+//@   loop 1 returns [C11] err == nil && closureLemma(sel(qseen, q), sid(commit2)) ==> (ok <==> anc(sid(commit1), sid(commit2)))
